@@ -33,6 +33,7 @@ type (
 		Recv Expr // method call on a value (deterministic extern accessor)
 	}
 	EOld   struct{ X Expr }
+	EBefore struct{ X Expr } // value in the state at entry of the innermost annotated loop
 	EQuant struct {
 		Forall bool
 		Vars   []Binder
@@ -597,6 +598,11 @@ func (p *parser) parsePrimary() Expr {
 			x := p.parseExpr()
 			p.expect(")")
 			return &EOld{x}
+		case "before":
+			p.expect("(")
+			x := p.parseExpr()
+			p.expect(")")
+			return &EBefore{x}
 		case "ite":
 			p.expect("(")
 			c := p.parseExpr()
